@@ -42,6 +42,13 @@ OuterF(flo, fli) ==
     CfgF(AllHooks, flo)>>
 FlagShapes == { OuterF({"context_flag"} \cup xo, {"context_flag"} \cup xi) : xo \in SUBSET OtherFlags, xi \in SUBSET OtherFlags }
               \cup { OuterF(xo, {"context_flag"} \cup xi) : xo \in {{"dialect_flag"}, {"by_alias_flag"}}, xi \in {{}, {"omit_none_flag"}} }
+\* a RECURSIVE union alias  type Tree = Inner | list[Tree]  as a field: every Inner at every depth is an instance of the traversal,
+\* and the context reaches it iff the holder and Inner both enabled the context flag
+RECURSIVE RecU(_, _)
+RecU(fl, k) == IF k = 0 THEN InnerF(fl) ELSE <<"union", <<InnerF(fl), <<"list", RecU(fl, k - 1)>> >> >>
+TreeT(fl) == <<"rec695", "Tree", <<"union", <<InnerF(fl), <<"list", <<"recref", "Tree">> >> >> >>, RecU(fl, 3)>>
+OuterR(flo, fli) == <<"dc", "Outer", << N, <<"t", TreeT(fli), <<"req">>, <<>> >> >>, CfgF(AllHooks, flo)>>
+RecShapes == { OuterR(flo, fli) : flo \in {{}, {"context_flag"}, {"context_flag", "by_alias_flag"}}, fli \in {{}, {"context_flag"}, {"context_flag", "omit_none_flag"}} }
 \* Outer refers to Inner by a FORWARD REFERENCE: Outer's methods are compiled on first use (postponed evaluation)
 OuterFwd(ho, hi) ==
   <<"dc", "Outer", << N, <<"inner", <<"fwd", "Inner", InnerT(hi, FALSE)>>, <<"req">>, <<>> >>,
@@ -53,7 +60,7 @@ AudT(h) == <<"dc", "Aud", <<N>>, << <<"mixin", "plain">>, <<"bases", <<RecT>> >>
 MsgT(h) == <<"dc", "Msg", << N, <<"plain", RecT, <<"req">>, <<>> >>, <<"audited", <<"list", AudT(h)>>, <<"req">>, <<>> >>,
                              <<"one", <<"opt", AudT(h)>>, <<"val", None>>, <<>> >> >>, <<>> >>
 Outers == { OuterT(ho, co, hi, ci, hu) : ho \in HookSets, co \in BOOLEAN, hi \in HookSets, ci \in BOOLEAN, hu \in { {}, {"pre_ser", "post_ser", "pre_deser", "post_deser"} } }
-Shapes == Outers \cup FlagShapes \cup { OuterFwd(ho, hi) : ho \in HookSets, hi \in HookSets }
+Shapes == Outers \cup FlagShapes \cup RecShapes \cup { OuterFwd(ho, hi) : ho \in HookSets, hi \in HookSets }
           \cup { MsgT(h) : h \in HookSets }
           \cup { <<"list", OuterT(h, FALSE, h, FALSE, h)>> : h \in HookSets }
           \cup { <<"union", <<AT(h), BT(h)>> >> : h \in HookSets }
@@ -86,7 +93,9 @@ OV(n, u, o) == <<"obj", "Outer", <<I(n), In(n + 1), L(<<In(n + 2), In(n + 3)>>),
 UA(n) == <<"obj", "A", <<I(n), I(7)>> >>
 UB(n) == <<"obj", "B", <<I(n), S("b")>> >>
 ValuesOf(S_) ==
-  CASE S_[1] = "dc" /\ S_[2] = "Msg" -> { <<"obj", "Msg", <<I(100), <<"obj", "Rec", <<I(101)>> >>, L(<< <<"obj", "Aud", <<I(102)>> >>, <<"obj", "Aud", <<I(103)>> >> >>), <<"obj", "Aud", <<I(104)>> >> >> >> }
+  CASE S_[1] = "dc" /\ Len(S_[3]) = 2 /\ S_[3][2][1] = "t" ->
+         { <<"obj", "Outer", <<I(100), L(<<In(101), L(<<In(102), L(<<In(103)>>)>>), In(104)>>)>> >>, <<"obj", "Outer", <<I(200), In(201)>> >> }
+    [] S_[1] = "dc" /\ S_[2] = "Msg" -> { <<"obj", "Msg", <<I(100), <<"obj", "Rec", <<I(101)>> >>, L(<< <<"obj", "Aud", <<I(102)>> >>, <<"obj", "Aud", <<I(103)>> >> >>), <<"obj", "Aud", <<I(104)>> >> >> >> }
     [] S_[1] = "dc" /\ Len(S_[3]) = 3 -> { <<"obj", "Outer", <<I(100), In(101), L(<<In(102), In(103)>>)>> >> }
     [] S_[1] = "dc" -> { OV(100, UA(150), None), OV(200, UB(250), In(204)) }
     [] S_[1] = "list" -> { L(<<OV(100, UA(150), None), OV(300, UB(350), In(304))>>), L(<<>>) }
@@ -106,6 +115,7 @@ NoHooks(S_) ==
   CASE S_[1] = "dc" -> <<"dc", S_[2], [i \in DOMAIN S_[3] |-> <<S_[3][i][1], NoHooks(S_[3][i][2]), S_[3][i][3], S_[3][i][4]>>], <<>> >>
     [] S_[1] \in {"list", "opt"} -> <<S_[1], NoHooks(S_[2])>>
     [] S_[1] = "fwd" -> <<"fwd", S_[2], NoHooks(S_[3])>>
+    [] S_[1] = "rec695" -> <<"rec695", S_[2], S_[3], NoHooks(S_[4])>>
     [] S_[1] = "dict" -> <<"dict", S_[2], NoHooks(S_[3])>>
     [] S_[1] = "union" -> <<"union", [i \in DOMAIN S_[2] |-> NoHooks(S_[2][i])]>>
     [] OTHER -> S_
